@@ -680,6 +680,32 @@ def _fetch_and_resolve(
 # ---------------------------------------------------------------------------
 
 
+class ExternalBudgetExceededError(RuntimeError):
+    """An upload was refused because it would exceed the caller's external-byte budget.
+
+    Raised by :func:`maybe_externalize_collector` / :func:`maybe_externalize_batch`
+    *before* ``storage.upload()`` is called, once the exact size of the IPC
+    payload is known.  The ``predict_externalize_bytes_*`` helpers only see the
+    batch's buffer size, a lower bound of that payload (IPC framing, padding
+    and any log batches come on top), so a payload whose buffers fit the
+    budget while its serialized form does not can only be refused here.
+
+    Attributes:
+        size: Bytes the upload would have transferred (raw IPC, pre-compression).
+        budget: Bytes the caller had left.
+
+    """
+
+    def __init__(self, size: int, budget: int) -> None:
+        """Record the refused payload size and the remaining budget."""
+        super().__init__(
+            f"Externalised payload exceeds max_externalized_response_bytes "
+            f"({size} bytes to upload > {budget} bytes of budget left)"
+        )
+        self.size = size
+        self.budget = budget
+
+
 def predict_externalize_bytes_for_collector(out: OutputCollector, config: ExternalLocationConfig) -> int:
     """Predict the external upload size if :func:`maybe_externalize_collector` ran now.
 
@@ -726,6 +752,8 @@ def predict_externalize_bytes_for_batch(batch: pa.RecordBatch, config: ExternalL
 def maybe_externalize_collector(
     out: OutputCollector,
     config: ExternalLocationConfig,
+    *,
+    max_external_bytes: int | None = None,
 ) -> tuple[list[tuple[pa.RecordBatch, pa.KeyValueMetadata | None]], int]:
     """Possibly externalize an entire OutputCollector cycle.
 
@@ -739,6 +767,13 @@ def maybe_externalize_collector(
     Args:
         out: The ``OutputCollector`` to check.
         config: ExternalLocationConfig configuration.
+        max_external_bytes: Bytes of external-storage budget the caller has
+            left for this response, or ``None`` for unbounded.  Checked
+            against the serialized payload before it is uploaded.
+
+    Raises:
+        ExternalBudgetExceededError: If the payload is larger than
+            ``max_external_bytes``.  Nothing has been uploaded.
 
     Returns:
         ``(batches, external_payload_bytes)``.  ``batches`` is the list of
@@ -775,6 +810,8 @@ def maybe_externalize_collector(
                 writer.write_batch(ab.batch)
 
     ipc_bytes = buf.getvalue()
+    if max_external_bytes is not None and len(ipc_bytes) > max_external_bytes:
+        raise ExternalBudgetExceededError(len(ipc_bytes), max_external_bytes)
     original_bytes: int | None = None
 
     # Compute SHA-256 of the raw IPC bytes (pre-compression) for end-to-end verification
@@ -819,6 +856,8 @@ def maybe_externalize_batch(
     batch: pa.RecordBatch,
     custom_metadata: pa.KeyValueMetadata | None,
     config: ExternalLocationConfig,
+    *,
+    max_external_bytes: int | None = None,
 ) -> tuple[pa.RecordBatch, pa.KeyValueMetadata | None, int]:
     """Possibly externalize a single batch.
 
@@ -828,6 +867,13 @@ def maybe_externalize_batch(
         batch: The batch to possibly externalize.
         custom_metadata: Custom metadata for the batch.
         config: ExternalLocation configuration.
+        max_external_bytes: Bytes of external-storage budget the caller has
+            left for this response, or ``None`` for unbounded.  Checked
+            against the serialized payload before it is uploaded.
+
+    Raises:
+        ExternalBudgetExceededError: If the payload is larger than
+            ``max_external_bytes``.  Nothing has been uploaded.
 
     Returns:
         ``(batch, custom_metadata, external_bytes)``.  When the batch is
@@ -860,6 +906,8 @@ def maybe_externalize_batch(
             writer.write_batch(batch)
 
     ipc_bytes = buf.getvalue()
+    if max_external_bytes is not None and len(ipc_bytes) > max_external_bytes:
+        raise ExternalBudgetExceededError(len(ipc_bytes), max_external_bytes)
     original_bytes: int | None = None
 
     # Compute SHA-256 of the raw IPC bytes (pre-compression) for end-to-end verification
